@@ -181,8 +181,10 @@ theorem C19_headline_dyn_build_leak_instances (e : Env) :
 /-- MODEL-LEVEL.  Which check stops `URL.build`, on arbitrary objects — statements 1–5 of `build` in source order, each
     with the negation of the earlier ones — and that a stopped call raises the exception of that check whatever the
     other arguments are:
-    1. `authority and (user or password or host or port)` → ValueError;  2. `port` neither None nor an int (a bool is
-    not) → TypeError, an int outside 0..65535 → ValueError;  3. `port and not host` → ValueError;  4. `query and
+    1. `authority and (user or password or host or port is not None)` → ValueError;  2. `port` neither None nor an int
+    (a bool is not) → TypeError, an int outside 0..65535 → ValueError;  3. `port is not None and not host` → ValueError
+    (1. and 3. since library fix 7970b83: a port of 0 IS a given port; before, both tested the truthiness of `port`);
+    4. `query and
     query_string` → ValueError;  5. a None among scheme / authority / host / path / query_string / fragment → TypeError.
     Cites C19_dynBuild_stop, C19_dynBuild_checks (C19DynBuild.lean). -/
 theorem C19_headline_dyn_build_argument_checks (e : Env) (o : BuildObjs) :
@@ -206,7 +208,8 @@ theorem C19_headline_dyn_build_argument_checks (e : Env) (o : BuildObjs) :
         noneArg o = false) :=
   ⟨fun s h => C19_dynBuild_stop e o s h, C19_dynBuild_checks o⟩
 
-/-- MODEL-LEVEL.  The three argument CONFLICTS as one iff (only truthiness matters), a conflict is always a ValueError;
+/-- MODEL-LEVEL.  The three argument CONFLICTS as one iff (only truthiness matters — for `port`, since library fix 7970b83,
+    only whether it is None: `isNoneObj o.port = false`, `0 ≤ i`), a conflict is always a ValueError;
     conversely every ValueError of `URL.build` is a conflict, the port range check, or a value-level ValueError of
     `get_str_query` / of the typed `build` on (a prefix of) the coerced arguments.  `build` has NO "scheme requires a
     host" check.  Cites C19_dynBuild_conflict_iff, C19_dynBuild_valueError_sources (C19DynBuild.lean). -/
